@@ -41,17 +41,30 @@ pub fn gen(rng: &mut Rng, tier: Tier) -> Value {
     let mut rs = rng.sub("schedule");
     let mut re = rng.sub("entropy");
     let mut rf = rng.sub("faults");
+    let fault_seed = rf.u64();
+    let every_prefix = tier == Tier::Thorough && rf.chance(1, 100);
+    let mut recursion = match rf.below(12) {
+        0 => 1,
+        1 | 2 => 2,
+        _ => 0,
+    };
+    if recursion == 2 {
+        // preconditions of the or-dummy variant (dummy_circuit must reproduce the common data; the dummy key is sized
+        // by the outer cap height): no lookup tables, no blinding, cap height 4
+        if !st.prog.tables.is_empty() {
+            recursion = 1;
+        } else {
+            st.cfg.cap_height = 4;
+            st.cfg.zero_knowledge = false;
+        }
+    }
     serde_json::to_value(Case {
         st,
         sched: Sched::draw(&mut rs),
         entropy: Entropy::draw(&mut re),
-        fault_seed: rf.u64(),
-        every_prefix: tier == Tier::Thorough && rf.chance(1, 100),
-        recursion: match rf.below(12) {
-            0 => 1,
-            1 => 2,
-            _ => 0,
-        },
+        fault_seed,
+        every_prefix,
+        recursion,
     })
     .unwrap()
 }
